@@ -18,6 +18,7 @@
 #
 # NIFTy is being developed at the Max-Planck-Institut fuer Astrophysik.
 
+import os
 import pickle
 from functools import reduce
 from os import makedirs
@@ -429,14 +430,18 @@ def optimize_kl(likelihood_energy,
                     overwrite=True)
 
             if _MPI_master(comm(iglobal)):
-                with open(join(output_directory, "last_finished_iteration"), "w") as f:
-                    f.write(str(iglobal))
                 _pickle_save_values(iglobal, 'energy_history', energy_history)
                 if plot_energy_history:
                     _plot_energy_history(iglobal, energy_history)
         _barrier(comm(iglobal))
 
         _minisanity(lh, iglobal, sl, comm, plot_minisanity_history)
+        _barrier(comm(iglobal))
+
+        # Mark the iteration as finished only after everything that `resume`
+        # reads (samples, energy history, minisanity history) is on disk
+        if output_directory is not None and _MPI_master(comm(iglobal)):
+            _save_last_finished_index(iglobal)
         _barrier(comm(iglobal))
 
         _counting_report(count, iglobal, comm)
@@ -468,6 +473,15 @@ def _file_name_by_strategy(iglobal, save_strategy='global_strategy'):
     elif save_strategy == "latest":
         return "latest"
     raise RuntimeError
+
+
+def _save_last_finished_index(index):
+    # Write to a temporary file and move it into place atomically such that an
+    # interrupted write never leaves an empty or partial marker behind
+    file_name = join(_output_directory, "last_finished_iteration")
+    with open(file_name + ".tmp", "w") as f:
+        f.write(str(index))
+    os.replace(file_name + ".tmp", file_name)
 
 
 def _save_random_state():
